@@ -3,14 +3,16 @@ EXTENDS NodeMap
 
 K3 == {"a", "b", "z"}
 S(t, v) == <<"s", t, v>>
-Inits == { <<>>,
+\* two keys with equal scalar values: in a composed document they may be ONE node
+Twin == << <<"a", S("int", "1")>>, <<"b", S("int", "1")>> >>
+Inits == { <<>>, Twin,
            << <<"a", S("int", "1")>>, <<"b", S("str", "x")>> >>,
            << <<"b", <<"q">>>>, <<"a", <<"m">>>> >>,
            << <<"a", S("null", "")>>, <<"b", S("bool", "true")>>, <<"c", S("float", "1.5")>> >> }
 Vals == {<<"str", "v">>, <<"int", "7">>, <<"bool", "false">>, <<"null", "">>, <<"float", "2.5">>}
 AllTypes == {"str", "int", "float", "bool", "null", "list", "dict"}
 QTypes == {"str", "null", "list"}
-InitsQ == { << <<"a", S("int", "1")>>, <<"b", S("str", "x")>> >>,
+InitsQ == { Twin, << <<"a", S("int", "1")>>, <<"b", S("str", "x")>> >>,
             << <<"b", <<"q">>>>, <<"a", <<"m">>>> >> }
 ValsQ == {<<"str", "v">>, <<"int", "7">>, <<"null", "">>}
 =============================================================================
